@@ -12,13 +12,13 @@ open GM GM.Text GM.Spec GM.Proof.Reader
 theorem blockAt_q0 (l : List Block) : blockAt (bqBlock :: l.map shB) 0 = .ok bqBlock := rfl
 
 theorem closeLoopAll_sim {src al} (ps : PS src al) (fr : Frames al) (l : List Block) (hl : OKB al l) :
-    ∀ (n : Nat) {k ls p} {sA sB : St}, SR src k ls p sA sB → AInv al sA.pc sA.nodes →
+    ∀ (n : Nat) {k ls p} {sA sB : St}, SR src k ls p sA sB → AInv al sA.pc sA.nodes → PKL l sA.nodes →
       S2 (fun _ _ sA' sB' => SR src k ls p sA' sB' ∧ AInv al sA'.pc sA'.nodes)
         (closeLoop l 0 n sA) (closeLoop (bqBlock :: l.map shB) 0 (n + 1) sB) := by
   intro n
   induction n with
   | zero =>
-    intro k ls p sA sB h ha
+    intro k ls p sA sB h ha _
     -- A does nothing; B closes its Blockquote (node 1, whose parent is the Document): nothing happens
     have hroot := h.n.node 0
     have hp := hroot.parent
@@ -41,7 +41,7 @@ theorem closeLoopAll_sim {src al} (ps : PS src al) (fr : Frames al) (l : List Bl
     unfold closeLoop
     exact S2.pure ⟨h, ha⟩
   | succ n ih =>
-    intro k ls p sA sB h ha
+    intro k ls p sA sB h ha hpk
     unfold closeLoop
     refine S2.bind (P := fun a b sA' sB' => b = shB a ∧ a ∈ l ∧ sA' = sA ∧ sB' = sB) (S2.liftE (fun a ha' => ?_))
       (fun a b sA1 sB1 hq => ?_)
@@ -64,10 +64,11 @@ theorem closeLoopAll_sim {src al} (ps : PS src al) (fr : Frames al) (l : List Bl
       rw [hsome]
       by_cases hs : x.parent.isSome = true
       · rw [if_pos hs, if_pos hs]
-        refine S2.bind (S2.andL (ps.close a.bp hal k ls p a.node sA sB h hn0 ha)
-          (F := fun _ sA' => AInv al sA'.pc sA'.nodes) (fun _ sA' e => fr.close _ _ _ _ _ e hal hn0 ha))
-          (fun _ _ sA3 sB3 h3 => ih h3.1 h3.2)
-      · rw [if_neg hs, if_neg hs]; exact ih h ha
+        refine S2.bind (S2.andL (ps.close a.bp hal k ls p a.node sA sB h hn0 ha (fun hbp => hpk.nr hm hbp))
+          (F := fun _ sA' => AInv al sA'.pc sA'.nodes ∧ KGn sA.nodes sA'.nodes)
+          (fun _ sA' e => ⟨fr.close _ _ _ _ _ e hal hn0 ha, fr.closeKG _ _ _ _ _ e hal⟩))
+          (fun _ _ sA3 sB3 h3 => ih h3.1 h3.2.1 (hpk.kg h3.2.2))
+      · rw [if_neg hs, if_neg hs]; exact ih h ha hpk
 
 /-- the relation between the two FINAL node stores, with the unary invariant of A's store -/
 def FRel (src : Bytes) (nA nB : List Node) : Prop := StoreRel src nA nB ∧ UStore nA
@@ -85,7 +86,7 @@ theorem closeBlocksAll_sim {src al} (ps : PS src al) (fr : Frames al) {k ls p} {
   rw [hc.opened]
   have en : (L + 1 - 0 + 1).toNat = (L - 0 + 1).toNat + 1 := by omega
   rw [en]
-  refine S2.bind (closeLoopAll_sim ps fr sA.pc.opened h.a.opened _ h.s h.a) (fun _ _ sA2 sB2 hq => ?_)
+  refine S2.bind (closeLoopAll_sim ps fr sA.pc.opened h.a.opened _ h.s h.a h.a.pk) (fun _ _ sA2 sB2 hq => ?_)
   obtain ⟨h2, ha2⟩ := hq
   have e0 : (((bqBlock :: sA.pc.opened.map shB).length : Nat) : Int) = (sA.pc.opened.length : Int) + 1 := by
     simp only [List.length_cons, List.length_map]; omega
@@ -170,7 +171,7 @@ theorem llOpen_sim {src al} (ps : PS src al) (fr : Frames al) (ot : OT src) (ns 
       split <;> omega
     rw [hidx]
     refine S2.bind (closeBlocks_sim ps fr h2 _ i) (fun _ _ sA4 sB4 h4 => ?_)
-    exact S2.pure ⟨rfl, p', h4⟩
+    exact S2.pure ⟨rfl, p', h4.1⟩
   · rw [if_neg hc, if_neg hc]
     exact S2.pure ⟨rfl, p', h2⟩
 
@@ -290,7 +291,8 @@ theorem lineLoop_sim {src al} (ps : PS src al) (fr : Frames al) (ot : OT src) (n
         fun stA' stB' hd => llFall_sim ps fr ot ns tr ob L i hi _ _ stA' stB' hd.loose
       by_cases hkp : (na.kind != Kind.paragraph) = true
       · rw [if_pos hkp, if_pos hkp]
-        obtain ⟨hp, hnsp⟩ := ns k ls p h.s.r.inl
+        have hp : p < src.length := h.s.r.inl.lt_iff.mpr hplt
+        have hnsp := ns k ls p h.s.r.inl hp
         refine S2.bind (S2.andL (ps.cont be.bp hal k ls p be.node sA2 sB2 h2 hn0 hd2.a hp hnsp)
           (F := fun _ sA' => AInv al sA'.pc sA'.nodes ∧ sA'.pc.opened = sA2.pc.opened)
           (fun _ sA' e => ⟨fr.cont _ _ _ _ _ e hal hn0 hd2.a, fr.contOpened _ _ _ _ _ e⟩)) (fun sa sb sA4 sB4 hq => ?_)
